@@ -16,7 +16,8 @@ for d in $DIRS; do
   VERIF_REPO=$W ./check $ID > /tmp/allseeds_$d.log 2>&1; e=$?
   n=$(grep -c '^VIOLATION' /tmp/allseeds_$d.log)
   echo "$d: exit $e, $n VIOLATION lines, $(( $(date +%s)-s ))s  $(grep -m1 '^VIOLATION' /tmp/allseeds_$d.log | cut -c1-160)"
-  [ $e -ne 1 ] && rc=1
+  want=$(python3 -c "import json,sys;print(json.load(open('$ROOT/seeded/$d/meta.json')).get('expected_exit',1))" 2>/dev/null || echo 1)
+  [ $e -ne $want ] && { rc=1; echo "$d: UNEXPECTED exit $e (expected $want)"; }
   rm -rf $W
 done
 exit $rc
